@@ -9,6 +9,10 @@ namespace occa {
   class kernelArgData;
   class modeBuffer_t;
 
+  // entries * dtypeSize as a byte count; raises for a negative count and for a product above half the
+  // dim_t range, so that the sum of a byte offset and a byte count never overflows
+  dim_t entriesToBytes(const dim_t entries, const int dtypeSize);
+
   class modeMemory_t : public gc::ringEntry_t {
    public:
     gc::ring_t<memory> memoryRing;
